@@ -5,7 +5,11 @@
 (* A world W is a small directory tree below the module root plus what     *)
 (* .mockery.yml says about it:                                             *)
 (*   n      number of nodes; node 1 is the top directory "r"               *)
-(*   par    par[k] = parent node (0 for node 1)                            *)
+(*   par    par[k] = parent node (0: directly below the world directory;   *)
+(*          several top-level directories = unrelated packages)            *)
+(*   ext    ext[k]: the directory is named like its first sibling plus a   *)
+(*          suffix ("a" / "ax"): one name is a STRING prefix of the other  *)
+(*          although neither directory contains the other                  *)
 (*   kind   "go" (has Go files) | "test" (only _test.go files) | "empty" | *)
 (*          "tagged" (only files excluded by a build constraint) |         *)
 (*          "testdata" | "under" (_x) | "dot" (.x) | "vendor" |            *)
@@ -45,13 +49,21 @@ Lab == <<"r", "a", "b", "c", "d">>
 PlainKinds == {"go", "test", "empty"}
 FreeKinds  == {"tagged", "testdata", "under", "dot", "vendor", "submod"}
 HidingKinds == FreeKinds \ {"tagged"}          \* hide themselves and everything below from `...` patterns
-NExcl == 5
+NExcl == 6
 
 Nodes == 1..W.n
+\* first sibling (same parent, smaller index) of k in world w; 0 if there is none
+FirstSibling(w, k) == IF \E j \in 1..(k - 1) : w.par[j] = w.par[k]
+                      THEN CHOOSE j \in 1..(k - 1) : w.par[j] = w.par[k] /\ \A i \in 1..(j - 1) : w.par[i] # w.par[k]
+                      ELSE 0
+NameKinds == {"go", "test", "empty", "tagged", "submod"}          \* kinds whose directory name is free
+ExtOK(w, k) == w.ext[k] => /\ FirstSibling(w, k) # 0 /\ w.kind[k] \in NameKinds
+                           /\ w.kind[FirstSibling(w, k)] \in NameKinds /\ ~w.ext[FirstSibling(w, k)]
 Label(k) == CASE W.kind[k] = "testdata" -> "testdata"
               [] W.kind[k] = "vendor"   -> "vendor"
               [] W.kind[k] = "under"    -> "_" \o Lab[k]
               [] W.kind[k] = "dot"      -> "." \o Lab[k]
+              [] W.ext[k]               -> Lab[FirstSibling(W, k)] \o "x"
               [] OTHER                  -> Lab[k]
 
 RECURSIVE Anc(_)
@@ -65,12 +77,13 @@ HasGo(k) == W.kind[k] = "go"
 
 \* ------------------------------------------------------------------ exclusion lists (Go regexps, see RecursiveMC)
 \* value -> list of patterns; the concrete regexps are in ExclPatterns, their meaning on a node in PatMatch.
-ExclPatterns == << <<"/b$">>, <<"/a(/|$)">>, <<"/r/[a-z]$">>, <<".">>, <<"/b$", "/r/[a-z]$">> >>
+ExclPatterns == << <<"/b$">>, <<"/a(/|$)">>, <<"/r/[a-z]$">>, <<".">>, <<"/b$", "/r/[a-z]$">>, <<"/a$">> >>
 PatMatch(p, k) ==
   CASE p = "/b$"        -> Label(k) = "b"
     [] p = "/a(/|$)"    -> \E j \in Anc(k) \cup {k} : Label(j) = "a"
     [] p = "/r/[a-z]$"  -> W.par[k] = 1 /\ Label(k) = Lab[k]
     [] p = "."          -> TRUE
+    [] p = "/a$"        -> Label(k) = "a"
 XMatch(e, k) == e # 0 /\ \E j \in 1..Len(ExclPatterns[e]) : PatMatch(ExclPatterns[e][j], k)
 
 \* ------------------------------------------------------------------ contract
@@ -118,7 +131,8 @@ SortSet(S) == IF S = {} THEN << >>
 SeqSet(s) == {s[j] : j \in 1..Len(s)}
 
 \* ------------------------------------------------------------------ worlds
-Trees(n) == {p \in [1..n -> 0..(n - 1)] : p[1] = 0 /\ \A k \in 2..n : p[k] >= 1 /\ p[k] < k}
+\* forests: a later node hangs below an earlier one or directly below the world directory
+Trees(n) == {p \in [1..n -> 0..(n - 1)] : p[1] = 0 /\ \A k \in 2..n : p[k] < k}
 AllKinds == PlainKinds \cup FreeKinds
 KindVecs(n) == {kv \in [1..n -> AllKinds] : kv[1] = "go" /\ Cardinality({k \in 1..n : kv[k] \in FreeKinds}) <= 1}
 ExclPairs == {<<0, 0>>} \cup {<<e, 0>> : e \in 1..NExcl} \cup {<<0, e>> : e \in 1..NExcl}
@@ -128,18 +142,20 @@ ExclPairs == {<<0, 0>>} \cup {<<e, 0>> : e \in 1..NExcl} \cup {<<0, e>> : e \in 
 Tup(n, F(_)) == CASE n = 1 -> <<F(1)>> [] n = 2 -> <<F(1), F(2)>> [] n = 3 -> <<F(1), F(2), F(3)>>
                   [] n = 4 -> <<F(1), F(2), F(3), F(4)>> [] n = 5 -> <<F(1), F(2), F(3), F(4), F(5)>>
 Const(n, v) == Tup(n, LAMBDA k : v)
+\* at most one directory named after its sibling
+ExtVecs(n) == {Tup(n, LAMBDA k : k = x) : x \in 0..n}
 
 \* Worlds are not enumerated as one big set of initial states (TLC computes initial states in one thread and
 \* far too slowly for 10^4..10^5 records): a behaviour first CHOOSES its world in three small steps (tree, kinds,
 \* configuration), then runs Initialize on it.  Which configurations are offered depends on the family.
-Blank(n, p) == [n |-> n, par |-> p, kind |-> Const(n, "go"), on |-> Const(n, FALSE), rec |-> Const(n, "U"),
+Blank(n, p) == [n |-> n, par |-> p, ext |-> Const(n, FALSE), kind |-> Const(n, "go"), on |-> Const(n, FALSE), rec |-> Const(n, "U"),
                 all |-> Const(n, "U"), sn |-> Const(n, FALSE), excl |-> Const(n, 0),
                 root |-> [rec |-> "U", all |-> "U", excl |-> 0]]
 EmptyWorld == Blank(1, <<0>>)
 
 \* family "discovery": only the top package is configured (recursive, at either level); every kind of directory
 DiscoveryConfigs(w) ==
-  {[n |-> w.n, par |-> w.par, kind |-> w.kind,
+  {[n |-> w.n, par |-> w.par, ext |-> w.ext, kind |-> w.kind,
     on |-> Tup(w.n, LAMBDA k : k = 1), rec |-> Tup(w.n, LAMBDA k : IF k = 1 THEN rm[1] ELSE "U"), all |-> Const(w.n, "U"),
     sn |-> Tup(w.n, LAMBDA k : k = 1), excl |-> Tup(w.n, LAMBDA k : IF k = 1 THEN xp[1] ELSE 0),
     root |-> [rec |-> rm[2], all |-> "T", excl |-> xp[2]]] :
@@ -156,41 +172,49 @@ ExclPlacements(onset) ==
   {[at |-> 0, v |-> 0, rv |-> 0]} \cup {[at |-> a, v |-> v, rv |-> 0] : a \in onset, v \in 1..3}
     \cup {[at |-> 0, v |-> 0, rv |-> v] : v \in 1..3} \cup {[at |-> a, v |-> 1, rv |-> 2] : a \in onset}
 
-InheritWorld(n, p, onset, rv, rr, pl, xpl) ==
-  [n |-> n, par |-> p, kind |-> Const(n, "go"),
-   on |-> Tup(n, LAMBDA k : k \in onset), rec |-> Tup(n, LAMBDA k : IF k \in onset THEN rv[k] ELSE "U"),
+InheritWorld(w, onset, rv, rr, pl, xpl) ==
+  [n |-> w.n, par |-> w.par, ext |-> w.ext, kind |-> Const(w.n, "go"),
+   on |-> Tup(w.n, LAMBDA k : k \in onset), rec |-> Tup(w.n, LAMBDA k : IF k \in onset THEN rv[k] ELSE "U"),
    all |-> pl.all, sn |-> pl.sn,
-   excl |-> Tup(n, LAMBDA k : IF k = xpl.at THEN xpl.v ELSE 0),
+   excl |-> Tup(w.n, LAMBDA k : IF k = xpl.at THEN xpl.v ELSE 0),
    root |-> [rec |-> rr, all |-> pl.rall, excl |-> xpl.rv]]
 OnSets(n) == {s \in SUBSET (1..n) : s # {} /\ Cardinality(s) <= 3}
 
 \* family "inherit": all directories have Go files; up to three configured packages, recursive or not, at any depth
 InheritConfigs(w) ==
-  UNION {{InheritWorld(w.n, w.par, onset, rv, rr, Payload((w.n + Cardinality(onset) + pv) % 3, w.n, onset), xpl) :
+  UNION {{InheritWorld(w, onset, rv, rr, Payload((w.n + Cardinality(onset) + pv) % 3, w.n, onset), xpl) :
             rv \in [onset -> {"U", "T", "F"}], rr \in {"U", "T"}, pv \in PayloadVariants, xpl \in ExclPlacements(onset)} :
           onset \in OnSets(w.n)}
 
 \* family "deep": only trees with exactly MaxNodes directories, recursion on or not written, one exclusion variant
 DeepConfigs(w) ==
-  UNION {{InheritWorld(w.n, w.par, onset, rv, "U", Payload(0, w.n, onset), xpl) :
+  UNION {{InheritWorld(w, onset, rv, "U", Payload(0, w.n, onset), xpl) :
             rv \in [onset -> {"U", "T"}],
             xpl \in {[at |-> 0, v |-> 0, rv |-> 0], [at |-> CHOOSE a \in onset : \A b \in onset : a <= b, v |-> 2, rv |-> 0]}} :
           onset \in OnSets(w.n)}
 
 \* family "order" (Order.tla, C06): a generation profile g is attached; see Order.tla for its meaning
-WithG(w, g) == [n |-> w.n, par |-> w.par, kind |-> w.kind, on |-> w.on, rec |-> w.rec, all |-> w.all, sn |-> w.sn,
+WithG(w, g) == [n |-> w.n, par |-> w.par, ext |-> w.ext, kind |-> w.kind, on |-> w.on, rec |-> w.rec, all |-> w.all, sn |-> w.sn,
                 excl |-> w.excl, root |-> w.root, g |-> g]
 Profiles == {[mode |-> m, layout |-> l, ents |-> e] :
-               m \in {"none", "same", "differ-valid", "differ-invalid"}, l \in {"perpkg", "periface"}, e \in {0, 2}}
+               m \in {"none", "same", "differ-valid", "differ-invalid", "unfetchable"}, l \in {"perpkg", "periface"}, e \in {0, 2}}
 OrderConfigs(w) ==
-  UNION {{WithG(InheritWorld(w.n, w.par, onset, rv, "U", Payload(pv, w.n, onset), xpl), g) :
+  UNION {{WithG(InheritWorld(w, onset, rv, "U", Payload(pv, w.n, onset), xpl), g) :
             rv \in [onset -> {"U", "T"}],
             pv \in IF Cardinality(onset) = 1 THEN {0, 2} ELSE {0},     \* 2: `all` only on odd packages (maybe nothing to do)
             xpl \in {[at |-> 0, v |-> 0, rv |-> 0], [at |-> CHOOSE a \in onset : \A b \in onset : a <= b, v |-> 1, rv |-> 0]},
             g \in Profiles} :
           onset \in OnSets(w.n)}
 
-WellFormed(w) == \A k \in 1..w.n : w.on[k] => w.kind[k] = "go"
+\* family "orderdeep": exactly MaxNodes directories, exactly three configured packages (so that a nested recursive pair can
+\* coexist with an unrelated recursive package), few profiles
+OrderDeepConfigs(w) ==
+  UNION {{WithG(InheritWorld(w, onset, rv, "U", Payload(0, w.n, onset), [at |-> 0, v |-> 0, rv |-> 0]), g) :
+            rv \in [onset -> {"U", "T"}],
+            g \in {[mode |-> m, layout |-> "perpkg", ents |-> 0] : m \in {"same", "differ-valid"}}} :
+          onset \in {s \in SUBSET (1..w.n) : Cardinality(s) = 3}}
+
+WellFormed(w) == \A k \in 1..w.n : (w.on[k] => w.kind[k] = "go") /\ ExtOK(w, k)
 
 \* ------------------------------------------------------------------ choosing the world
 Absent == [present |-> FALSE, marker |-> 0, rec |-> "U", all |-> "U", excl |-> 0, prefix |-> ""]
@@ -201,12 +225,15 @@ Init == /\ W = EmptyWorld /\ pk = <<Absent>>
         /\ pc = "choose-tree" /\ pass = 1 /\ pending = {} /\ recq = << >>
 
 ChooseTree == /\ pc = "choose-tree"
-              /\ \E n \in (IF Family = "deep" THEN {MaxNodes} ELSE 2..MaxNodes) : \E p \in Trees(n) : W' = Blank(n, p)
+              /\ \E n \in (IF Family \in {"deep", "orderdeep"} THEN {MaxNodes} ELSE 2..MaxNodes) : \E p \in Trees(n) : W' = Blank(n, p)
               /\ pc' = "choose-kinds"
               /\ UNCHANGED <<pk, pass, pending, recq>>
 
 ChooseKinds == /\ pc = "choose-kinds"
-               /\ IF Family = "discovery" THEN \E kv \in KindVecs(W.n) : W' = [W EXCEPT !.kind = kv] ELSE W' = W
+               /\ \E xv \in (IF Family \in {"order", "orderdeep"} THEN {Const(W.n, FALSE)} ELSE ExtVecs(W.n)) :
+                    /\ IF Family = "discovery" THEN \E kv \in KindVecs(W.n) : W' = [W EXCEPT !.kind = kv, !.ext = xv]
+                                               ELSE W' = [W EXCEPT !.ext = xv]
+                    /\ \A k \in 1..W.n : ExtOK(W', k)
                /\ pc' = "choose-config"
                /\ UNCHANGED <<pk, pass, pending, recq>>
 
@@ -214,6 +241,7 @@ ConfigChoices == CASE Family = "discovery" -> DiscoveryConfigs(W)
                    [] Family = "inherit"   -> InheritConfigs(W)
                    [] Family = "deep"      -> DeepConfigs(W)
                    [] Family = "order"     -> OrderConfigs(W)
+                   [] Family = "orderdeep" -> OrderDeepConfigs(W)
                    [] OTHER                -> {}
 
 ChooseConfig == /\ pc = "choose-config"
